@@ -268,7 +268,8 @@ Definition unregister (s : state) (l : list oid) : state :=
 Definition register (s : state) (l : list oid) : state :=
   fold_left (fun s o => set_all s (pset (full_name s o) o (allobjs s))) l s.
 
-(* ---- Documentable.reparent (the second _handle_reparenting_post re-assigns the same keys) ---- *)
+(* ---- Documentable.reparent, statement by statement (the second _handle_reparenting_post walks the contents as they
+        are at that moment; on coherent states it re-assigns the same keys: Proofs/ProjectMove.v) ---- *)
 Definition reparent (s : state) (o : oid) (new_parent : oid) (new_name : N) : state :=
   match objs s o with
   | None => s
@@ -283,7 +284,8 @@ Definition reparent (s : state) (o : oid) (new_parent : oid) (new_name : N) : st
       let s3 := register s2 sub in
       let s4 := upd_obj s3 old_parent (fun pb => with_contents (ndel old_name (o_contents pb)) pb) in
       let s5 := upd_obj s4 old_parent (fun pb => with_alias (nset old_name (full_name s4 o) (o_alias pb)) pb) in
-      upd_obj s5 new_parent (fun pb => with_contents (nset new_name o (o_contents pb)) pb)
+      let s6 := upd_obj s5 new_parent (fun pb => with_contents (nset new_name o (o_contents pb)) pb) in
+      register s6 (subtree s6 o)
     end
   end.
 
